@@ -155,4 +155,20 @@ theorem binLoop_inside (target : List Rat) (demand : List Int) (hdem : ∀ c, 0 
       rw [a3 j (fun b' hb' => hj b' (List.mem_cons_of_mem _ hb'))]
       exact binStep_other target demand ret b j (hj b (by simp))
 
+/-! ### cells that are in no bin -/
+
+theorem clampTo_bounds (lo hi : Int) (h : lo ≤ hi) (t : Rat) :
+    (lo : Rat) ≤ clampTo lo hi t ∧ clampTo lo hi t ≤ (hi : Rat) := by
+  have h' : (lo : Rat) ≤ (hi : Rat) := by exact_mod_cast h
+  unfold clampTo
+  split <;> split <;> constructor <;> linarith
+
+theorem initCoords_length (n : Nat) (lo hi : Int) (target : List Rat) :
+    (initCoords n lo hi target).length = n := by
+  simp [initCoords]
+
+theorem initCoords_getD (n : Nat) (lo hi : Int) (target : List Rat) (c : Nat) (hc : c < n) :
+    (initCoords n lo hi target).getD c 0 = clampTo lo hi (target.getD c 0) := by
+  simp [initCoords, List.getD_eq_getElem?_getD, List.getElem?_map, List.getElem?_range hc]
+
 end ColoVerif.Spread
